@@ -165,7 +165,9 @@ class C11(Prop):
         if presorted:
             # presorted=True is only meaningful on inputs sorted by the key the operator sorts by
             skey = key
-            srcs = [list(etl.sort(s, skey)) for s in srcs]
+            # (rows of the even sources are handed over as lists, those of the odd ones as tuples)
+            flip = len(srcs[0]) % 2
+            srcs = [[list(r) if (i + flip) % 2 == 0 else tuple(r) for r in etl.sort(s, skey)] for i, s in enumerate(srcs)]
         old = config.sort_buffersize
         td = tempfile.TemporaryDirectory(dir='/var/tmp') if use_tempdir else None
         try:
